@@ -286,7 +286,7 @@ def gen_plan(seed: int, tier: str) -> dict:
         "loop_iteration_limit": rng.choice([None, None, None, None, 5, 40]),
         "output_stream_limit": rng.choice([None, None, None, None, 60, 400]),
         "local_namespace_limit": rng.choice([None, None, None, None, 200]),
-        "context_depth_limit": rng.choice([None, None, None, 4]),
+        "context_depth_limit": rng.choice([None, None, None, None, None, None, 4]),
         "globals": rng.choice([None, None, {"gv": "E", "tenant": "t1"}]),
         "translation_filters": rng.random() < 0.3,
     }
@@ -367,7 +367,8 @@ def gen_plan(seed: int, tier: str) -> dict:
         else:
             op["drops"] = {"mode": "none"}
         if rng.random() < 0.15:
-            op["fail_keys"] = rng.sample(list(FAIL_KEYS), rng.randint(1, 2))
+            cands = _data_keys(data) or list(FAIL_KEYS)
+            op["fail_keys"] = rng.sample(cands, min(len(cands), rng.randint(1, 2)))
         if kind != "render":
             op["partials"] = rng.random() < 0.8
         op["catalog"] = rng.random() < 0.5
@@ -376,6 +377,26 @@ def gen_plan(seed: int, tier: str) -> dict:
         p.pop("data", None)
     return {"property": PROP, "seed": seed, "cfg": cfg, "programs": progs, "partials": partials,
             "ops": ops, "source": source}
+
+
+def _data_keys(data, limit: int = 40) -> list[str]:
+    """Access labels ('parent.key') of the dict nodes of a data tree."""
+    out: list[str] = []
+
+    def walk(v, path, depth):
+        if depth > 3 or len(out) >= limit:
+            return
+        if isinstance(v, dict):
+            for k, x in v.items():
+                if path:
+                    out.append(f"{path}.{k}")
+                walk(x, f"{path}.{k}" if path else str(k), depth + 1)
+        elif isinstance(v, list):
+            for i, x in enumerate(v[:3]):
+                walk(x, f"{path}[{i}]", depth + 1)
+
+    walk(data, "", 0)
+    return out
 
 
 class Engine:
